@@ -94,12 +94,25 @@ func TestCheck(t *testing.T) {
 			// minimum is then the only thing that keeps the estimate at or above 1
 			spec.Min = 0
 			spec.QueueKind, spec.QueueArg = []string{"fixed", "tenth"}[r.IntN(2)], 0
-			if kind == "gradient2" && spec.Max < 4 {
+			smallMax := false
+			if kind == "gradient2" && r.IntN(3) == 0 {
+				// a maximum below Gradient2's default minimum (4) with the minimum left to default: the constructor may
+				// refuse that; if it hands out an instance, the instance honours the maximum the caller did configure
+				spec.Max = 1 + r.IntN(3)
+				spec.Initial = 1 + r.IntN(spec.Max)
+				smallMax = true
+				rt.Count("gradient2_cases_maximum_below_the_default_minimum", 1)
+			}
+			if kind == "gradient2" && spec.Max < 4 && !smallMax {
 				spec.Max = 4 // Gradient2's default minimum
 			}
 			rt.Count("cases_default_minimum_and_zero_queue_allowance", 1)
 		}
-		inner := spec.New(nil, "c04")
+		inner, cerr := spec.TryNew(nil, "c04")
+		if cerr != nil {
+			rt.Count("configurations_the_constructor_refused", 1)
+			return
+		}
 		w := wrappers[r.IntN(len(wrappers))]
 		l, wcfg := wrap(w, inner, r)
 		lo, hi := spec.LowerBound(), spec.Ceil()
